@@ -75,6 +75,15 @@ theorem pres_{name} {{s s' : St}} {{a : Act}} (hI : Inv s) (h : step .repaired s
   | fire t0 =>
     simp only [step] at h
     (repeat' (split at h)) <;> (try cases h) <;> (simp only [St.setPc, St.setObj]; {T})
+  | corrupt d =>
+    simp only [step] at h
+    (repeat' (split at h)) <;> (try cases h) <;> (simp only []; {T})
+  | block d =>
+    simp only [step] at h
+    (repeat' (split at h)) <;> (try cases h) <;> (simp only []; {T})
+  | repair d =>
+    simp only [step] at h
+    (repeat' (split at h)) <;> (try cases h) <;> (simp only []; {T})
   | run t0 =>
     simp only [step] at h
     split at h
